@@ -127,7 +127,7 @@ def _rx_payload(f: dict, rng: random.Random, schema: dict) -> str | None:
                 continue
             p = p[:4] + s + p[6:]
         elif fam == "none" and f["code"] != "2E04":
-            p = "00" + p[2:]
+            p = (i if i not in ("", "00") else "00") + p[2:]
         elif fam == "bind":
             return None
         if len(p) % 2 == 0 and 2 <= len(p) <= 96 and re.match(pat, p) and p != x.NULL_LOG:
